@@ -34,7 +34,7 @@
    target and the outputs of its dependencies - source files are part of the target, they do not
    change during the runs) and the hash `H` recorded on the outputs.  No proofs here. *)
 From PlzV Require Import Base.Harness.
-From PlzV Require Model.C31_Protocol.
+From PlzV Require Model.C31_Protocol Model.C31_TempFile.
 
 Definition mem (k : str) (l : list str) : bool := existsb (str_eqb k) l.
 
@@ -505,7 +505,12 @@ Inductive case :=
    (non-zero exit with the tell-tale messages, outputs differing from a solo build, or the command run again
    by an invocation that had waited on the lock).  Model/C31_Protocol.v: the statement-level lock protocol
    regenerated from buildTarget. *)
-| CaseCrit (filegroup : bool) (invocations : nat) (interfered : bool).
+| CaseCrit (filegroup : bool) (invocations : nat) (interfered : bool)
+(* a run of harness stream copied-filegroup/shared-file: `targets` DIFFERENT binary filegroups re-exporting one
+   large file (one output path, as many target locks), `invocations` real processes building one each at the
+   same time; interfered = an invocation failed or the output differs from a solo build.
+   Model/C31_TempFile.v: WriteFile's copy-then-rename with the temporary-name policy translated from fs.go. *)
+| CaseShared (targets invocations : nat) (interfered : bool).
 
 Fixpoint alookup (k : str) (l : list (str * str)) : option str :=
   match l with
@@ -550,4 +555,5 @@ Definition check (c : case) : bool :=
           && forallb (fun ln => Nat.eqb (ran_total w (fst ln) + ran_total st (fst ln)) (snd ln)) ob_runs in
       wf_repo r && finished ckey w && good a && good b
   | CaseCrit filegroup invocations interfered => C31_Protocol.crit_check filegroup invocations interfered
+  | CaseShared targets invocations interfered => C31_TempFile.shared_check targets invocations interfered
   end.
